@@ -938,4 +938,16 @@ theorem ipv6TextS_iff (s v : List Nat) : Ipv6TextS s v → Ipv6Text s v := by
 theorem pton6_sound (s v : List Nat) (h : pton6 s = some v) : Ipv6Text s v :=
   ipv6TextS_iff s v (pton6_soundS s v h)
 
+theorem cstr_ne_zero (s : List Nat) : ∀ c ∈ cstr s, c ≠ 0 := by
+  induction s with
+  | nil => simp [cstr]
+  | cons a t ih =>
+    by_cases ha : a = 0
+    · simp [cstr, ha]
+    · intro c hc
+      simp [cstr, ha] at hc
+      rcases hc with rfl | hc
+      · exact ha
+      · exact ih c (by simpa [cstr] using hc)
+
 end UvModel.Inet
